@@ -3,6 +3,7 @@ package props
 import (
 	"fmt"
 	"go/types"
+	"regexp"
 	"sort"
 	"strings"
 
@@ -426,6 +427,7 @@ func runC03(c *Ctx) {
 
 	// ---- DHCP option order ----
 	runC03OptionOrder(c)
+	runC03OptionsComplete(c)
 }
 
 func argNames(a []encArg) string {
@@ -450,6 +452,59 @@ func runC03OptionOrder(c *Ctx) {
 	c.R.Add(core.Obligation{Rule: "option-order", Key: "option-order AppendOptions", Func: core.FuncName(fn), Pos: c.P.Pos(fn.Pos()), Status: st,
 		Basis: "the ordered pass iterates append(<constant list: mask .. router>, caller order...)", Detail: det,
 		Hint: "emit the constant list first: order = append(optionsReplyParametersList, order...)"})
+}
+
+// runC03OptionsComplete: every option of the caller's map is emitted. In AppendOptions the stores that emit an option
+// (code, length into the scratch buffer) may be conditional only on presence in the map (comma-ok of the lookup, the
+// range iteration) and on remaining capacity (conditions over the scratch buffer, the write position or cap of the
+// frame) — never on the option's value or code.
+func runC03OptionsComplete(c *Ctx) {
+	c.R.Rule("options-complete", "every supplied DHCP option is emitted (emission conditional only on presence and capacity)", 2)
+	fn := c.A.Method("", "DHCP4", "AppendOptions")
+	if fn == nil {
+		return
+	}
+	kg := core.NewKeyGen()
+	n := 0
+	core.EachInstr(fn, func(i ssa.Instruction) {
+		st, ok := i.(*ssa.Store)
+		if !ok {
+			return
+		}
+		ia, ok := st.Addr.(*ssa.IndexAddr)
+		if !ok || !strings.HasPrefix(norm(ia.X), "local(makeslice)") {
+			return
+		}
+		// the option-code store: the value stored is the code (range key / order element), the next store is the length
+		if strings.HasPrefix(norm(st.Val), "len(") {
+			return
+		}
+		n++
+		var bad []string
+		for _, g := range guardsOf(i) {
+			t := strings.TrimPrefix(g.Text, "!")
+			switch {
+			case strings.Contains(t, "cap(recv)"), strings.Contains(t, "local(makeslice)"):
+			case regexp.MustCompile(`^arg0\[.*\]#1$`).MatchString(t): // comma-ok of the map lookup
+			case t == "next#0": // range over the map
+			case regexp.MustCompile(`^\(\(φ\+1\)<len\(append\(`).MatchString(t): // range over the order list
+			default:
+				bad = append(bad, g.Text)
+			}
+		}
+		status := core.Proved
+		det := ""
+		if len(bad) > 0 {
+			status = core.Violated
+			det = "an option is emitted only if " + strings.Join(bad, " && ") + ": options for which this is false are silently dropped from the encoded packet (for example zero-length options such as Rapid Commit)"
+		}
+		key := strings.TrimSuffix(kg.Key("options-complete AppendOptions emission"), "#0")
+		c.R.Add(core.Obligation{Rule: "options-complete", Key: key, Func: core.FuncName(fn), Pos: c.P.Pos(core.PosOf(i)), Status: status,
+			Basis: "emission conditional only on presence in the map and capacity: " + guardTexts(guardsOf(i)), Detail: det})
+	})
+	if n < 2 {
+		c.R.Add(core.Obligation{Rule: "options-complete", Key: "options-complete AppendOptions", Func: core.FuncName(fn), Status: core.Violated, Detail: fmt.Sprintf("expected two emission sites (ordered pass, remaining pass), found %d", n)})
+	}
 }
 
 func optionOrderVerdict(c *Ctx, fn *ssa.Function) (core.Status, string) {
